@@ -30,7 +30,11 @@ func (b *bmcSys) newProcMachine(p *bproc, prefix []int) *Machine {
 	m.escaped = map[*Object]bool{}
 	m.chanLenFn = func(c *Chan) Value {
 		m.touched = append(m.touched, c) // the local code depends on this channel's state
-		return b.intToBV(b.chanState(c).length)
+		ln := b.chanState(c).length
+		if u, ok := m.outcomeUpd[ln]; ok {
+			ln = u // the step's own receive/send has already changed the length
+		}
+		return b.intToBV(ln)
 	}
 	m.arenaLoadFn = func(p *PtrV) Value { return b.arenaLoad(m, p) }
 	m.arenaStoreFn = func(p *PtrV, v Value) { b.arenaStore(m, p, v) }
@@ -420,6 +424,7 @@ func (b *bmcSys) runProcPath(m *Machine, l *bloc, o *outcome) (p *bpath) {
 	}()
 	b.restore(m, l)
 	b.bind(m, l, o)
+	m.outcomeUpd = o.chanUpd
 	m.stopped = false
 	m.run(0)
 	dst, regUpd := b.capture(m, l.proc)
